@@ -606,7 +606,7 @@ def run_kani(h, playback=False):
     os.makedirs(scratch, exist_ok=True)
     env = dict(os.environ, KANI_SCRATCH=scratch, KANI_TIMEOUT=str(h.get('timeout', 2400)))
     # fully qualified name + --exact: `--harness c20_postcard_member` would also select c20_postcard_member_short
-    full = ('verif_kani::codecs::' if h['harness'].startswith('c20_') else 'verif_kani::') + h['harness']
+    full = h.get('path') or (('verif_kani::codecs::' if h['harness'].startswith('c20_') else 'verif_kani::') + h['harness'])
     cmd = [os.path.join(VERIF, 'tools', 'run_kani.sh'), full, feat, '--exact']
     if playback:
         cmd += ['-Z', 'concrete-playback', '--concrete-playback=print']
@@ -641,7 +641,9 @@ def kani_phase(pid, tier, units):
             chosen.append((h, 'tier'))
         elif 'fallback' in h['tiers']:
             for u in units:
-                if u['unit'] == h.get('unit') and u['status'] == 'undecided' and any(x.startswith(('front-end', 'extraction', 'verus produced')) for x in u['undecided']):
+                lost = set(u.get('isolated') or {}) | set(u.get('dropped_hints') or {})
+                if u['unit'] == h.get('unit') and ((u['status'] == 'undecided' and any(x.startswith(('front-end', 'extraction', 'verus produced')) for x in u['undecided']))
+                                                   or any(f in lost or any(k.endswith('::' + f) or k == f for k in lost) for f in h.get('functions', []))):
                     chosen.append((h, 'fallback'))
                     break
     def one(hw):
